@@ -119,10 +119,21 @@ def run(ctx):
                     f = io.BytesIO(fc["data"])
                     reader = bnp.io.parser.NumpyFileReader(f, bt)
                     chunk = reader.read()
+                    if r.random() < 0.3:
+                        chunk.get_data()        # the buffer parsed once before (parsing must not change what the buffer holds)
                     table = chunk.get_data()
                 else:
                     table = tables.open_case(path, fc, lazy=lazy, buffer=buffer).read()
                 n_got = len(table)
+                if n_got >= 2 and r.random() < 0.3:
+                    # the columns of a row slice are read first (slices share the table's buffers), then the whole table
+                    kcut = r.randint(1, n_got - 1)
+                    part = read_columns(table[:kcut], fc, buffer)
+                    bad_part = tables.compare_columns(part, {f_: v_[:kcut] for f_, v_ in exp.items()})
+                    if bad_part:
+                        ctx.violation(classify(fc, variant, bad_part[0][0], mode) + ":row-slice", "%s field %s of table[:%d] parsed as %r, the text means %r" % (variant, bad_part[0][0], kcut, bad_part[0][2], bad_part[0][3]),
+                                      {"variant": variant, "mode": mode, "data": fc["data"].decode("latin1"), "field": bad_part[0][0]})
+                    ctx.count("slice_read_before_whole")
                 cols = read_columns(table, fc, buffer)
             except Exception as e:
                 from bnpmon.ctx import exc_site, originates_in_library
